@@ -14,12 +14,18 @@ if r.returncode != 0:
     sys.exit("patch does not apply")
 try:
     for p in props:
+        # the evidence files in /verif describe the unchanged tree: keep them out of harm's way
+        root = os.environ.get("VERIF_ROOT", "/verif")
+        ev = f"{root}/evidence/{p}.json"
+        saved = open(ev).read() if os.path.exists(ev) else None
         r = subprocess.run(["bin/check", p, tier], cwd=os.environ.get("VERIF_ROOT", "/verif"), capture_output=True, text=True)
         lines = [l for l in r.stdout.splitlines() if l.startswith(("VIOLATION", "  oracle", "KNOWN", "MACHINERY"))]
         first = next((l.strip()[:300] for l in lines if l.startswith("  oracle")), "")
         verdict = {0: "MISSED (exit 0)", 1: "CAUGHT (exit 1)"}.get(r.returncode, f"MACHINERY exit {r.returncode}")
         meta.setdefault("detection", {})[f"{p} {tier}"] = {"result": verdict, "first_report": first}
         print(name, p, tier, verdict, first[:160])
+        if saved is not None:
+            open(ev, "w").write(saved)
 finally:
     subprocess.run(["git", "-C", REPO, "checkout", "--", "."])
 json.dump(meta, open(f"{d}/meta.json", "w"), indent=1)
